@@ -158,6 +158,80 @@ def projection_observations(prg, inputs):
     return ret
 
 
+def cleanup_observations(prg, inputs):
+    """one request per top-level body literal `cleanup` deleted because another body literal supersedes it:
+    (pre, rule before, rule after, post, :- p., :- q.) as s-expression texts, in the order of the deletions, each against the
+    program as it was at that moment; + the number of deletions outside the shape of the theorem (inside conditions,
+    in objectives)"""
+    from clingo.ast import BooleanConstant, Literal, Rule
+    from ngo.cleanup import CleanupTranslator
+    from ngo.utils.ast import LOC
+    cur = {"prg": None, "done": [], "events": [], "calls": 0, "top": True}
+    real_find, real_apply = CleanupTranslator._find_superseeded, CleanupTranslator._apply_superseeding
+    real_rm, real_sup = CleanupTranslator._remove_superseed_from_list, CleanupTranslator._superseeded
+
+    def find(self, p):
+        cur["prg"] = list(p)
+        return real_find(self, p)
+
+    def apply(self, stm):
+        cur["calls"], cur["events"] = 0, []
+        out = real_apply(self, stm)
+        cur["done"].append((stm, out, list(cur["events"])))
+        return out
+
+    def rm(self, body):
+        cur["calls"] += 1
+        cur["top"] = cur["calls"] == 1
+        return real_rm(self, body)
+
+    def sup(self, lhs, rhs):
+        r = real_sup(self, lhs, rhs)
+        if r:
+            cur["events"].append((cur["top"], lhs, rhs))
+        return r
+    CleanupTranslator._find_superseeded, CleanupTranslator._apply_superseeding = find, apply
+    CleanupTranslator._remove_superseed_from_list, CleanupTranslator._superseeded = rm, sup
+    try:
+        CleanupTranslator(inputs).execute(prg)
+    except Exception:  # noqa - crashes are C03's business
+        return [], 0
+    finally:
+        CleanupTranslator._find_superseeded, CleanupTranslator._apply_superseeding = real_find, real_apply
+        CleanupTranslator._remove_superseed_from_list, CleanupTranslator._superseeded = real_rm, real_sup
+    if cur["prg"] is None or len(cur["done"]) != len(cur["prg"]):
+        return [], 0
+    current = list(cur["prg"])
+    obs, other = [], 0
+    false = Literal(LOC, Sign.NoSign, BooleanConstant(False))
+    for i, (stm, out, events) in enumerate(cur["done"]):
+        for top, lhs, rhs in events:
+            if not top or stm.ast_type != ASTType.Rule:
+                other += 1
+                continue
+            body = list(current[i].body)
+            if rhs not in body:
+                other += 1
+                continue
+            k = body.index(rhs)
+            current[i] = current[i].update(body=body[:k] + body[k + 1:])
+            try:
+                j = next(x for x, l in enumerate(body) if x != k and l == lhs)
+                tr = _Apart()
+                body2 = [tr(l) for l in body]
+                head2 = tr(stm.head)
+                before2 = stm.update(head=head2, body=body2)
+                after2 = stm.update(head=head2, body=body2[:k] + body2[k + 1:])
+                pre = apart_prog(current[:i])
+                post = apart_prog(current[i + 1:])
+                obs.append((ser.prog(pre), ser.stm(before2), ser.stm(after2), ser.prog(post),
+                            ser.stm(Rule(LOC, false, [body2[j]])), ser.stm(Rule(LOC, false, [body2[k]])), f"{lhs} supersedes {rhs} in {stm}"))
+            except Exception:  # noqa - outside the mirror
+                other += 1
+        current[i] = out
+    return obs, other
+
+
 def duplication_observations(prg, inputs):
     """per factored literal set: the canonical aux rule, ALL (rule before, rule after) pairs and the context (every other
     statement of the result); sets whose places of use are not in the shape of the theorem are counted"""
@@ -329,14 +403,18 @@ def leanio_show(x) -> str:
     return str(x)
 
 
-def make_texts(rng, n_gen, corpus_limit=None):
+def make_texts(rng, n_gen, corpus_limit=None, kinds=None):
     H = corpus.harvest()
-    pref = [x for x in H if x[0] in ("symmetry", "unused", "regression", "projection", "literal_duplication", "dependency", "minmax_aggregates", "sum_aggregates")]
-    rest = [x for x in H if x[0] not in ("symmetry", "unused", "regression", "projection", "literal_duplication", "dependency", "minmax_aggregates", "sum_aggregates")]
+    pref = [x for x in H if x[0] in ("symmetry", "unused", "regression", "projection", "literal_duplication", "dependency", "minmax_aggregates", "sum_aggregates", "cleanup")]
+    rest = [x for x in H if x[0] not in ("symmetry", "unused", "regression", "projection", "literal_duplication", "dependency", "minmax_aggregates", "sum_aggregates", "cleanup")]
     if corpus_limit is not None:
         rest = rng.sample(rest, min(len(rest), corpus_limit))
         pref = rng.sample(pref, min(len(pref), 2 * corpus_limit))
     texts = [("corpus:" + o, t) for o, t in pref + rest]
+    if kinds is not None and set(kinds) == {"cleanup"}:
+        import corr_cleanup
+        texts = [x for x in texts if x[0] in ("corpus:cleanup", "corpus:regression", "corpus:unused")]
+        return texts + [("targeted:cleanup", corr_cleanup.targeted_program(rng)) for _ in range(n_gen)]
     for i in range(n_gen):
         r = rng.random()
         if r < 0.3:
@@ -356,11 +434,13 @@ def make_texts(rng, n_gen, corpus_limit=None):
     return texts
 
 
-def run(rng, n_gen, corpus_limit=None) -> dict:
+def run(rng, n_gen, corpus_limit=None, kinds=None) -> dict:
     hist = collections.Counter()
     reqs = []
     meta = []
-    for label, text in make_texts(rng, n_gen, corpus_limit):
+    def want(k):
+        return kinds is None or k in kinds
+    for label, text in make_texts(rng, n_gen, corpus_limit, kinds):
         prg = _parse(text)
         if not prg:
             hist["skip:unparsable"] += 1
@@ -373,29 +453,34 @@ def run(rng, n_gen, corpus_limit=None) -> dict:
             continue
         from ngo import auto_detect_output
         outputs = auto_detect_output(prg)
-        for ptext, name, ar in unused_observations(_preprocess(_parse(text)), inputs, outputs):
+        for ptext, name, ar in (unused_observations(_preprocess(_parse(text)), inputs, outputs) if want("unused") else []):
             reqs.append(f'(sem_unused_cond {ptext} {ser.q(name)} {ar})')
             meta.append(("unused", text, f"{name}/{ar}", 1))
-        for stm in _parse(text):
+        for stm in (_parse(text) if want("expand_comparisons") else []):
             if stm.ast_type in (ASTType.Rule, ASTType.Minimize):
                 try:
                     reqs.append(f'(sem_okstm {ser.stm(stm)})')
                     meta.append(("expand_comparisons", text, str(stm), 1))
                 except Exception:  # noqa
                     hist["expand_comparisons: statement outside the mirror"] += 1
-        for before, aux, upd, ctxp in projection_observations(_preprocess(_parse(text)), inputs):
+        for before, aux, upd, ctxp in (projection_observations(_preprocess(_parse(text)), inputs) if want("projection") else []):
             reqs.append(f'(sem_split_cond {before} {aux} {upd} {ctxp})')
             meta.append(("projection", text, (aux, upd), 1))
-        for cname, ptext, pairs in domain_observations(_preprocess(_parse(text)), inputs):
+        cobs, cother = cleanup_observations(_preprocess(_parse(text)), inputs) if want("cleanup") else ([], 0)
+        hist["cleanup: deletions inside conditions or objectives (outside the theorem)"] += cother
+        for pre, before, after, post, pr, qr, what in cobs:
+            reqs.append(f'(sem_implied_cond {pre} {before} {after} {post} {pr} {qr})')
+            meta.append(("cleanup", text, what, 1))
+        for cname, ptext, pairs in (domain_observations(_preprocess(_parse(text)), inputs) if want("domains") else []):
             reqs.append(f'(sem_dom_cond {ptext} ({pairs}))')
             meta.append(("domains", text, cname, 1))
-        dobs, dother = duplication_observations(_preprocess(_parse(text)), inputs)
+        dobs, dother = duplication_observations(_preprocess(_parse(text)), inputs) if want("duplication") else ([], 0)
         hist["duplication: factored sets whose places of use are not in the shape of the theorem"] += dother
         for aux, pairs, ctxp in dobs:
             uses = " ".join(f"({o} {u})" for o, u in pairs)
             reqs.append(f'(sem_dup_all {aux} ({uses}) {ctxp})')
             meta.append(("duplication", text, (aux, pairs), 1))
-        sobs, other = symmetry_observations(_preprocess(_parse(text)), inputs)
+        sobs, other = symmetry_observations(_preprocess(_parse(text)), inputs) if want("symmetry") else ([], 0)
         hist["symmetry: rules rewritten in another shape (count / aux / several literals)"] += other
         for rtext, x, y, others in sobs:
             # one request per candidate involution; the observation counts as covered if one of them satisfies everything
@@ -440,7 +525,10 @@ def run(rng, n_gen, corpus_limit=None) -> dict:
                 hist[f"{kind}: side condition does NOT hold {tuple(int(f) for f in flags)}"] += 1
                 outside.append(text)
             continue
-        flagsets = [[str(x) == "1" for x in a[1:]] for a in good]
+        # cleanup: the first two flags decide (check, same literals); the others say which conjunct of the check failed
+        flagsets = [[str(x) == "1" for x in (a[1:3] if kind == "cleanup" else a[1:])] for a in good]
+        if kind == "cleanup" and not all(flagsets[0]):
+            hist["cleanup: failing conjuncts (fragment, p in body, every deriving rule carries q) " + str(tuple(int(str(x) == "1") for x in good[0][3:]))] += 1
         if any(all(f) for f in flagsets):
             hist[f"{kind}: side condition of the theorem holds"] += 1
         else:
